@@ -15,7 +15,7 @@ CHECKS = {
    note="step counter hook counts lexer tokens and opened nodes; 256 MiB worker stacks (the server's 2 MiB stacks are not asserted); nesting > 256 skipped as documented non-goal",
    technique="property-based testing / fuzzing with a deterministic step-budget hook"),
  "C10": dict(cat="exploration", design="§5 C10",
-   text="Differential against an independent reference position mapper (RefPos, from the LSP spec) on every string of length <=6 (thorough <=7) over a 9-symbol alphabet chosen to hit every encoding class and every line-break confusion (exhaustive), x every char-boundary offset and every (line, column) up to one past the extremes, plus an exhaustive family of code points at the edges of every UTF-8/UTF-16 length class and one per UTF-8 lead byte, long random texts over arbitrary scalar values, and real files in LF/CRLF form.",
+   text="Differential against an independent reference position mapper (RefPos, from the LSP spec) on every string of length <=6 (thorough <=8) over a 9-symbol alphabet chosen to hit every encoding class and every line-break confusion (exhaustive), x every char-boundary offset and every (line, column) up to one past the extremes, plus an exhaustive family of code points at the edges of every UTF-8/UTF-16 length class and one per UTF-8 lead byte, long random texts over arbitrary scalar values, and real files in LF/CRLF form.",
    note="RefPos is the trusted reference; offsets strictly inside a CRLF pair are exempt from the round-trip clause, columns inside a surrogate pair and lines past the end are unspecified and skipped",
    technique="exhaustive small-scope enumeration + random texts against a reference model (differential)"),
  "C14": dict(cat="exploration", design="§5 C14",
@@ -23,7 +23,7 @@ CHECKS = {
    note="RefLexer is the trusted reference for boundaries; kinds are checked by class membership, not by name",
    technique="property-based testing: generated token sequences, differential against a reference lexer"),
  "C15": dict(cat="exploration", design="§5 C15",
-   text="Exhaustive enumeration of all directive/marker sequences up to length 6 (thorough 7) over two macro names, evaluated by a reference preprocessor (RefPP): for well-nested inputs the delivered non-trivia tokens must be exactly the selected markers with zero errors; unterminated conditionals and nameless directives must be reported. Random nestings to depth 6 with CRLF and trailing comments (after a blank and glued to the directive word or macro name); the same with lines of text that is not TableGen (unterminated strings, code fragments and comments, mid-line directives) placed in disabled regions; conditional regions embedded between the statements of generated programs (ide level: no declaration and no diagnostic from disabled text).",
+   text="Exhaustive enumeration of all directive/marker sequences up to length 6 (thorough 8) over two macro names, evaluated by a reference preprocessor (RefPP): for well-nested inputs the delivered non-trivia tokens must be exactly the selected markers with zero errors; unterminated conditionals and nameless directives must be reported. Random nestings to depth 6 with CRLF and trailing comments (after a blank and glued to the directive word or macro name); the same with lines of text that is not TableGen (unterminated strings, code fragments and comments, mid-line directives) placed in disabled regions; conditional regions embedded between the statements of generated programs (ide level: no declaration and no diagnostic from disabled text).",
    note="RefPP is the trusted reference; inputs with stray #else/#endif are not asserted",
    technique="exhaustive small-scope enumeration against a reference evaluator"),
  "C03": dict(cat="exploration", design="§5 C03",
@@ -43,7 +43,7 @@ CHECKS = {
    note="every edit is followed by set_root_file; hash-ordered result lists are compared sorted; FileIds are normalised to paths",
    technique="stateful property-based testing: history generation with a from-scratch differential oracle"),
  "C16": dict(cat="exploration", design="§5 C16",
-   text="Exhaustive enumeration of every include graph (all edge sets incl. self-loops) over <=3 files (thorough: <=4 files, 65536 graphs) x 9 variants (missing includes in every file, INCLUDE_DIR-only target, directory-vs-INCLUDE_DIR choice, doubled include statements, includes nested in let/foreach/if/multiclass blocks, two directories with same-named files, files that declare nothing by name, include statements with a comment before the file name), checked against a reference reachability/resolution model: termination via traversal budget, exact workspace, exact document links, diagnostics only on unresolvable includes, single indexing, references across all includers.",
+   text="Exhaustive enumeration of every include graph (all edge sets incl. self-loops) over <=3 files (thorough: <=4 files, 65536 graphs, and 800k random graphs of 5-8 files, sparse to dense) x 9 variants (missing includes in every file, INCLUDE_DIR-only target, directory-vs-INCLUDE_DIR choice, doubled include statements, includes nested in let/foreach/if/multiclass blocks, two directories with same-named files, files that declare nothing by name, include statements with a comment before the file name), checked against a reference reachability/resolution model: termination via traversal budget, exact workspace, exact document links, diagnostics only on unresolvable includes, single indexing, references across all includers.",
    note="traversal-budget hook in collect_sources / Include::index; search order taken from the documentation",
    technique="exhaustive small-scope enumeration of configurations against a reference model"),
  "C20": dict(cat="exploration", design="§5 C20",
